@@ -1732,14 +1732,16 @@ def family():
                         b.simple(9, pkg, (Q, m1, c1, 'alpha'), (P, m2, c2, 'beta'), refs)
                     out.append(('simple-a%d-%s-%d%d%d%d%s' % (arity, 'refl' if reflexive else 'bin', m1, c1, m2, c2,
                                                               '-swap' if swap else ''), b.d))
-                b, pkg = frame()
-                P = target(b, pkg, 'P', arity)
-                Q = P if reflexive else target(b, pkg, 'Q', 1)
-                L = b.cls('L', pkg, [('Rank', 'integer')], {})
-                b.linked(9, pkg, L, (P, m1, c1, 'alpha'), (Q, m2, c2, 'beta'),
-                         ['P_Id'] if arity == 1 else ['P_Id', 'P_Code'],
-                         ['Q_Id'] if arity == 1 or not reflexive else ['Q_Id', 'Q_Code'])
-                out.append(('linked-a%d-%s-%d%d%d%d' % (arity, 'refl' if reflexive else 'bin', m1, c1, m2, c2), b.d))
+                for link_mult in (0, 1):     # 1: the associative class is {M} (R_ASSR.Mult), which the component does not reflect
+                    b, pkg = frame()
+                    P = target(b, pkg, 'P', arity)
+                    Q = P if reflexive else target(b, pkg, 'Q', 1)
+                    L = b.cls('L', pkg, [('Rank', 'integer')], {})
+                    b.linked(9, pkg, L, (P, m1, c1, 'alpha'), (Q, m2, c2, 'beta'),
+                             ['P_Id'] if arity == 1 else ['P_Id', 'P_Code'],
+                             ['Q_Id'] if arity == 1 or not reflexive else ['Q_Id', 'Q_Code'], link_mult=link_mult)
+                    out.append(('linked-a%d-%s-%d%d%d%d%s' % (arity, 'refl' if reflexive else 'bin', m1, c1, m2, c2,
+                                                              '-linkM' if link_mult else ''), b.d))
         for nsubs in (1, 2, 3):
             b, pkg = frame()
             P = target(b, pkg, 'P', arity)
